@@ -1,6 +1,6 @@
 CONSTANTS
   Defects = {"nomime_default"}
-  Family = "errors"
+  Family = "errors_small"
   Deep = FALSE
 INIT Init
 NEXT Next
